@@ -27,10 +27,12 @@ var handCorpus = []string{"a==1", "a == 1", "a == 1 and b == 2", "not a == 1", "
 	"a == 1 ) ", "( a == 1", "()", "( )", "not ( a == 1 )", "not\ta == 1", "a  is   not    empty", "a is  empty", "a isempty", "a is notempty", "\"/a\" is empty", "\"/\" == 1", "\"//\" == 1",
 	"a == \"\ufffd\"", "a == `\ufffd`", "a[\"\ufffd\"] == 1", "\ufffd == 1", "a == \"x\ufffdy\" and b == 1", "a == \"s t\"", "a == \"s  t\"", "a == \"s\tt\"", "a  ==  \"s t\"", "a[\"k k\"] == 1", "a[\"k  k\"] == 1", "a\f== 1", "a\v== 1", "a\u00a0== 1", "a\u0085== 1", "a == \"/p~2\"", "\"/p~2\" == 1", "\"/p~\" == 1", "\"/a~01b\" == 1", "\"/~0~1~01~10\" is empty", "a == \"/x~01\"", "a matches b", "a not matches `[`", "1 == 1", "-1 in a", "1.5 not in a", "`raw` in a", "\"q\" not in a", "a == b.c[\"d\"]", "a == \"\\u00e9\"",
 	"a==1 and b==2 and c==3", "a==1 or b==2 or c==3", "a==1 and b==2 or c==3 and d==4", "not a==1 and not b==2", "(a==1 or b==2) and c==3", "a==1 and (b==2 or c==3)",
-	strings.Repeat("(", 6) + "a==1" + strings.Repeat(")", 6), strings.Repeat("(", 7) + "foo == 3" + strings.Repeat(")", 7), "a matches `(`", "b.c matches \"[z-a]\"", "m.k not matches `a{2,1}`", "l.0 matches `*x`", "any l as x { x matches `(` }", strings.Repeat("not ", 5) + "a==1", "a == " + strings.Repeat("9", 40), "a == 1.", "a == .5", "a == -", "a == 1e3", "a == +1"}
+	strings.Repeat("(", 6) + "a==1" + strings.Repeat(")", 6), strings.Repeat("(", 7) + "foo == 3" + strings.Repeat(")", 7), "a matches `(`", "b.c matches \"[z-a]\"", "m.k not matches `a{2,1}`", "l.0 matches `*x`", "any l as x { x matches `(` }", strings.Repeat("not ", 5) + "a==1", "a == " + strings.Repeat("9", 40), "a == 1.", "a == .5", "a == -", "a == 1e3", "a == +1",
+	`foo == "-"`, "foo != `-`", `"-" in foo`, `"+" not in foo`, `any foo as x { x == "-" }`, `a == "."`, `a == "e"`, `a == "0x"`, `a == "_"`, `a == "-."`, `a == "+."`, `a == "-0x"`, `a == "1e"`, `a == "1e+"`, `a == "Inf"`, `a == "nan"`, `a == " "`, `a == "-_"`,
+	`foo contains "-"`, `a == "0b"`, `a == "0o"`, `a == "--"`, `a == "+-"`, "a == `+`", `a["-"] == 1`, `a["+"] == "+"`, `"/-" == 1`, `"/+" == "-"`}
 
 var gSels = []string{"a", "b.c", `m["k"]`, `"/x/y"`, "l.0", "foo.bar.baz", "m[`r`]", `"/p~1q"`}
-var gVals = []string{"1", "-2.5", "foo", `"s t"`, "`raw`", `"/p"`, "x.y", `""`, "0", `"\x41"`}
+var gVals = []string{"1", "-2.5", "foo", `"s t"`, "`raw`", `"/p"`, "x.y", `""`, "0", `"\x41"`, `"-"`, `"+"`, "`.`", `"0x"`, `"1e"`}
 var gOps = []string{" == ", "==", " != ", " in ", " not in ", " contains ", " not contains ", " matches ", " not matches "}
 
 func gAtom() string {
@@ -187,7 +189,32 @@ func parserCorpus(tier string, seed uint64, f func(stream, s string)) {
 		rng = NewRng(mix(seed, strHash("malformed"), uint64(i)))
 		f("malformed", malformed())
 	}
+	// texts the grammar accepts with something put before or after them that a lenient reader might strip
+	for i := 0; i < sz.derive/4; i++ {
+		rng = NewRng(mix(seed, strHash("decorated"), uint64(i)))
+		s := gDerive(rng.Intn(3))
+		if i < len(handCorpus) {
+			s = handCorpus[i]
+		}
+		deco := pick(rng, decorations)
+		switch rng.Intn(4) {
+		case 0:
+			f("decorated", s+deco)
+		case 1:
+			f("decorated", deco+s+deco)
+		default:
+			f("decorated", deco+s)
+		}
+	}
+	for _, deco := range decorations {
+		for _, s := range []string{"a == 1", "foo == 1", "a == 1 and b == 2", "any a as x { x == 1 }", "((((((a == 1))))))", "a ==", ""} {
+			f("decorated", deco+s)
+			f("decorated", s+deco)
+		}
+	}
 }
+
+var decorations = []string{"\ufeff", "\ufeff\ufeff", "\xef\xbb", "\ufffe", "\x00", "\u00a0", "\u2028", "\u200b", "\v", "\f", "\r\n", "#", "//", "\x1a", "\u3000", ";", "\\", "\x7f", "\u0085"}
 
 func parseCmd(which string, budget uint64, s string) string {
 	b := "none"
@@ -381,7 +408,7 @@ func runC11(r *Run) {
 		n, geo = 20000, 22
 	}
 	parserCorpus("quick", r.Seed, func(stream, s string) {
-		if seen[s] || (stream != "hand" && stream != "derive" && stream != "render" && stream != "mutated" && stream != "malformed") {
+		if seen[s] || (stream != "hand" && stream != "derive" && stream != "render" && stream != "mutated" && stream != "malformed" && stream != "decorated") {
 			return
 		}
 		seen[s] = true
@@ -406,6 +433,9 @@ func runC11(r *Run) {
 	for d := 1; d <= maxd; d++ {
 		inputs = append(inputs, strings.Repeat("(", d)+"a==1"+strings.Repeat(")", d))
 		inputs = append(inputs, strings.Repeat("( ", d)+"a == 1 and b == 2"+strings.Repeat(" )", d))
+	}
+	for _, deco := range decorations {
+		inputs = append(inputs, deco+"a == 1", deco+"a ==", deco+strings.Repeat("(", maxd)+"a == 1"+strings.Repeat(")", maxd), "a == 1"+deco)
 	}
 	for _, k := range []int{300, 450} {
 		key := strings.Repeat("\U00020000", k)
@@ -450,7 +480,11 @@ func runC11(r *Run) {
 				}
 			}
 			// public API
+			t1 := time.Now()
 			_, err := bexpr.CreateEvaluator(s, bexpr.WithMaxExpressions(b))
+			if el1 := time.Since(t1); b < N && el1 > 2*time.Second {
+				r.Violate("budget-not-bounding-time", key, c2, "CreateEvaluator: "+el1.String())
+			}
 			_, err0 := bexpr.CreateEvaluator(s)
 			if b >= N && (err == nil) != (err0 == nil) {
 				r.Violate("option-large-budget", key, c2, "CreateEvaluator with a sufficient budget differs from no budget")
